@@ -375,6 +375,7 @@ pub fn script_from_bytes(data: &[u8]) -> (crate::sim::Script, bool) {
             noise_connection: false,
             greeting_tail: None,
             foreign_callers: false,
+            shutdown_behaviour: 0,
         },
         faulty && fault_used,
     )
